@@ -479,6 +479,16 @@ pub fn explore(opts: &Opts) -> Explored {
         (vec![OpK::Add, OpK::Mul, OpK::Neg, OpK::UMul], 3, pool.clone()),
         (vec![OpK::Axpy(0.1), OpK::Mul, OpK::Div], 2, pool.clone()),
         (vec![OpK::Matmul { ta: false, tb: true, bias: false }, OpK::Matmul { ta: true, tb: false, bias: false }, OpK::Mul], 2, square_pool),
+        // products with a rank-1 additive term broadcast over two rows (the dense layer's form)
+        (
+            vec![OpK::Matmul { ta: false, tb: true, bias: true }, OpK::Mul],
+            2,
+            vec![
+                Leaf { dims: vec![2, 2], vals: vec![1.0 + var as f64, 2.0, -3.0, 0.5] },
+                Leaf { dims: vec![2, 2], vals: vec![2.0, -1.0, 4.0, 3.0] },
+                Leaf { dims: vec![2], vals: vec![0.5, -1.5 - var as f64] },
+            ],
+        ),
     ];
     for (ops, gen_nodes, pool) in alphabets {
     let is_matmul_alphabet = ops.iter().any(|o| matches!(o, OpK::Matmul { .. }));
@@ -516,6 +526,22 @@ pub fn explore(opts: &Opts) -> Explored {
                             continue;
                         }
                     };
+                    // the unperturbed run itself against the reference: a differential oracle is blind to
+                    // whatever all variants have in common (an operand silently replaced by a private node)
+                    {
+                        let case = || format!("{} mask={:03b} root=v{} unperturbed", p.describe(), m, root).replace(' ', "");
+                        if l.want(&case) {
+                            let mut cr = cfg.clone();
+                            cr.check_ref = true;
+                            cr.nslots = base_script.nslots;
+                            l.transitions += 1;
+                            l.validated += 1;
+                            if let crate::machine::StepResult::Violation { sub, detail } = crate::machine::replay(&cr, &base_script.acts) {
+                                l.violation("unperturbed-vs-reference", case(), format!("{}: {}", sub, detail));
+                            }
+                            let _ = take_user_log();
+                        }
+                    }
                     let atoms = atoms_for(p, root);
                     let mut combos: Vec<Vec<Atom>> = atoms.iter().map(|a| vec![a.clone()]).collect();
                     if n <= pairs_upto {
@@ -531,7 +557,9 @@ pub fn explore(opts: &Opts) -> Explored {
                     // same values, same results as with a fresh seed array
                     {
                         let case = || format!("{} mask={:03b} root=v{} seed-from-kept-handle", p.describe(), m, root).replace(' ', "");
-                        if l.want(&case) {
+                        // (the seed handle has the first leaf's dimensions: only for roots of those dimensions)
+                        let root_has_seed_dims = base[base_script.views[root][0]].as_ref().map(|o| o.dims == pool[0].dims).unwrap_or(false);
+                        if root_has_seed_dims && l.want(&case) {
                             let nv = p.nv();
                             let nl = p.nl();
                             let n_root = pool[0].vals.len();
